@@ -12,7 +12,7 @@ cp "$D/demo_test.go" "$SCR/zz_seeded_demo_test.go"
 cd "$SCR"
 go test -count=1 -vet=off -run 'TestSeeded' . > "$SCR/orig.log" 2>&1; o=$?
 rm -f zz_seeded_demo_test.go
-if ! git apply --whitespace=nowarn "$D/patch.diff" 2> "$SCR/apply.log"; then echo "RESULT apply=FAIL $(head -2 $SCR/apply.log | tr '\n' ' ')"; cd /; rm -rf "$SCR"; exit 1; fi
+if ! (git apply --whitespace=nowarn "$D/patch.diff" 2> "$SCR/apply.log" || patch -p1 -F3 -s --no-backup-if-mismatch < "$D/patch.diff" >> "$SCR/apply.log" 2>&1); then echo "RESULT apply=FAIL $(head -2 $SCR/apply.log | tr '\n' ' ')"; cd /; rm -rf "$SCR"; exit 1; fi
 go build ./... > "$SCR/build.log" 2>&1; b=$?
 go test -count=1 -vet=off ./... > "$SCR/suite.log" 2>&1; s=$?
 cp "$D/demo_test.go" "$SCR/zz_seeded_demo_test.go"
